@@ -18,7 +18,7 @@ RULE = ("Hypothesis-generated 3D plotfiles (1-3 nested levels, partial refinemen
         "0..finest) x explicit / default output name, through whip's CLI entry point main() with a generated argv. "
         "The saved array must equal covering_grid(limit).astype(dtype) bit for bit with axes (x, y, z); then, one "
         "level at a time, every completion order of the per-file read tasks (all n! for n <= 4 files) plus one drawn "
-        "joint order must produce byte-identical files. Non-trivial = >= 2 levels with partial refinement and >= 2 "
+        "The type is spelled by name or by one of numpy's other spellings of the same type. joint order must produce byte-identical files. Non-trivial = >= 2 levels with partial refinement and >= 2 "
         "binary files in some level.")
 ASSUMPTIONS = ["schedule-owning pool models imap_unordered as an arbitrary completion order of independent tasks"]
 
